@@ -34,6 +34,8 @@ def to_neutral(e):
     if c == 'ExprInt':
         return ('int', e.arg.size, int(e.arg) & mask(e.arg.size))
     if c == 'ExprId':
+        if e.is_term or e.is_reg:
+            return ('id', e.name, e.size, bool(e.is_term), bool(e.is_reg))
         return ('id', e.name, e.size)
     if c == 'ExprMem':
         return ('mem', to_neutral(e.arg), e.size, to_neutral(e.segm) if e.segm is not None and hasattr(e.segm, 'get_size') else None)
@@ -68,6 +70,8 @@ def from_neutral(t):
     if k == 'int':
         return x.ExprInt(x.tab_uintsize[t[1]](t[2]))
     if k == 'id':
+        if len(t) > 3:
+            return x.ExprId(t[1], t[2], is_term=t[3], is_reg=t[4])
         return x.ExprId(t[1], t[2])
     if k == 'mem':
         return x.ExprMem(from_neutral(t[1]), t[2], from_neutral(t[3]) if t[3] is not None else None)
@@ -396,6 +400,16 @@ def _parity_np(v):
     return (v & U64(1)) ^ U64(1)
 
 
+SEGAWARE = False     # C15/C16 set this: a segment override selects a different address space
+
+
+def _segsalt(seg):
+    if seg is None or not SEGAWARE:
+        return 0
+    import zlib
+    return 1 + (zlib.crc32(show(seg).encode()) & 0xffff)
+
+
 def ev_np(t, ids, salt=0, lanes=None):
     """ids: name -> numpy uint64 array (all of equal length)"""
     k = t[0]
@@ -408,8 +422,9 @@ def ev_np(t, ids, salt=0, lanes=None):
     if k == 'mem':
         a = ev_np(t[1], ids, salt, lanes)
         v = np.zeros(lanes, dtype=U64)
+        ss = salt + 7 * _segsalt(t[3])
         for i in range(t[2] // 8):
-            v |= np_membyte(a + U64(i), salt) << U64(8 * i)
+            v |= np_membyte(a + U64(i), ss) << U64(8 * i)
         return v
     if k == 'slice':
         return (ev_np(t[1], ids, salt, lanes) >> U64(t[2])) & _m(t[3] - t[2])
